@@ -37,6 +37,14 @@ PROPERTIES = {
         "level_note": "Assumed: str::contains / str::replace / String::repeat / OnceLock::get_or_init replaced by first-order helpers with contracts (R5); the OnceLock cache is not filled in the model, instead every cache state allowed by the invariant is considered (sound for the returned text). Cow<'static,str> as String. BarState::draw / update_estimate_and_draw enter through their frame contract. That format_state pushes only texts obtained through expanded()/TabRewriter into bar lines is decided with C11's unit, not here.",
         "assumptions": ["R2: Arc<Mutex<BarState>> as a plain field (sequential)"],
     },
+    "C12": {
+        "units": ["c12_padding"],
+        "level": "proof",
+        "explanation": "PaddedStringDisplay::fmt extracted from src/style.rs and verified against the padding / truncation functions written from the statement: exact output for content that fits (pad side by alignment), unshortened output when too wide without truncation, and on printable ASCII exactly W characters from the start / middle / end with truncation; both padding loops carry inductive invariants; the byte arithmetic (len - excess) is proved free of underflow.",
+        "level_text": "Deductive proof (Verus) for every text, width, alignment and truncate flag of the three clauses above; the 'exactly W columns' clause for arbitrary (non-ASCII) text is a separate obligation that fails on the pinned tree and is listed as a known finding with its witness.",
+        "level_note": "Assumed: core::fmt::Formatter as a ghost sink; console::measure_text_width / str::len / str::get uninterpreted with their meaning fixed on printable ASCII only (columns == chars == bytes) and cols <= bytes in general. wide_msg (WideElement::expand) is covered with C13's unit, not here.",
+        "assumptions": ["R13: Display::fmt verified as an inherent method"],
+    },
     "C14": {
         "units": ["c14_style"],
         "level": "proof",
@@ -69,6 +77,7 @@ WITNESS = {
     "c10_template/Template::from_str_with_tab_width#safety": ["template_total", "template_order"],
     "c10_template/Template::from_str_with_tab_width#C10-literal": ["template_order"],
     "c10_template/Template::from_str_with_tab_width": ["template_order", "template_total"],
+    "c12_padding/PaddedStringDisplay::fmt": ["pad_field"],
     "c14_style/ProgressStyle::tick_strings": ["style_build tick_strings"],
     "c14_style/ProgressStyle::progress_chars": ["style_build progress_chars"],
     "c14_style/ProgressStyle::tick_chars": ["style_build tick_chars"],
